@@ -9,8 +9,12 @@ for d in sorted(os.listdir(os.path.join(ROOT, "seeded"))):
     demo = os.path.join(ROOT, "seeded", d, "demo.py")
     if not os.path.exists(demo) or (only and d not in only):
         continue
+    # the environment in which I confirmed the demonstration (meta.json: with or without my prometheus_client stand-in)
+    import json
+    mp = os.path.join(ROOT, "seeded", d, "meta.json")
+    stubs = "stubs" in (json.load(open(mp)).get("demo_env", "stubs") if os.path.exists(mp) else "stubs")
     try:
-        r = subprocess.run(["/venv/bin/python", demo], env=dict(os.environ, PYTHONPATH="/repo:" + os.path.join(ROOT, "replay", "stubs")), capture_output=True, text=True, timeout=300, cwd="/repo")
+        r = subprocess.run(["/venv/bin/python", demo], env=dict(os.environ, PYTHONPATH="/repo" + (":" + os.path.join(ROOT, "replay", "stubs") if stubs else "")), capture_output=True, text=True, timeout=300, cwd="/repo")
         rc = r.returncode
         tail = (r.stdout + r.stderr).strip().splitlines()[-1:] if (r.stdout + r.stderr).strip() else []
     except subprocess.TimeoutExpired:
